@@ -373,8 +373,21 @@ def run_scale_job(job, prop, seed, tag):
                 # through the hub) before and after the churn, then the collection of the cycle
                 if data["small_before_bytes"] != 100 or data["small_after_bytes"] != 100:
                     r.inconclusive.append({"why": "churn probes ran %d / %d traces instead of 100 each" % (data["small_before_bytes"], data["small_after_bytes"])})
-                elif data["small_after_cpu_us"] > 20 * data["small_before_cpu_us"] + 50000:
-                    problems.append("100 traces through a hub with 1 live adoption took %d us before and %d us after it had adopted and unadopted %d peers (cost follows adoptions ever made, not adoptions that exist)" % (data["small_before_cpu_us"], data["small_after_cpu_us"], n))
+                elif data["small_after_cpu_us"] > 20 * data["small_before_cpu_us"] + 10000:
+                    # thread CPU time, a factor of 20 and 10 ms of slack; measured once more before it is reported
+                    again = None
+                    try:
+                        p2 = subprocess.run(cmd0 + ["scale", "--shape", sh, "--n", str(n), "--stack-kib", str(st), "--seed", str(sd)] + extra,
+                                            cwd=HARNESS, env=env, stdout=subprocess.PIPE, stderr=subprocess.PIPE, text=True, timeout=timeout)
+                        for line in p2.stdout.splitlines():
+                            if line.startswith("SCALE {"):
+                                again = json.loads(line[6:])
+                    except subprocess.TimeoutExpired:
+                        pass
+                    if again is None:
+                        r.inconclusive.append({"why": "churn re-measurement did not complete"})
+                    elif again["small_after_cpu_us"] > 20 * again["small_before_cpu_us"] + 10000:
+                        problems.append("100 traces through a hub with 1 live adoption took %d us before and %d us after it had adopted and unadopted %d peers (second measurement: %d us -> %d us): cost follows adoptions ever made, not adoptions that exist" % (data["small_before_cpu_us"], data["small_after_cpu_us"], n, again["small_before_cpu_us"], again["small_after_cpu_us"]))
                 if data["collect_cpu_us"] > 50000 + n // 20:
                     problems.append("collecting a two-object cycle took %d us after its hub had adopted and unadopted %d peers" % (data["collect_cpu_us"], n))
                 if data["group_members"] != 2 or data["drops"] != 2 or data["traces"] != 1:
